@@ -6,7 +6,7 @@
 //! guarantees that a rejected instruction leaves all accounts unchanged.
 use anchor_lang::prelude::*;
 use gmsol_store::states::{Seed, Store};
-use mc_core::{e1, json, Cli, Report};
+use mc_core::{e1, e2::{self, Machine, StepOut}, json, Cli, Report};
 use solana_program::instruction::Instruction;
 
 use crate::svm::{addr, meta, process, Acc, Db, TxError};
@@ -135,16 +135,171 @@ fn probes() -> Vec<Probe> {
     v
 }
 
+// ---- authority / receiver hand-over histories (E3): who may nominate and who may accept, after any history
+
+#[derive(Clone, Debug)]
+enum HAct {
+    TransferAuthority(usize, usize),
+    AcceptAuthority(usize),
+    TransferReceiver(usize, usize),
+    AcceptReceiver(usize),
+}
+
+#[derive(Clone)]
+struct HSt {
+    db: Db,
+    /// reference: authority, nominated authority, receiver, nominated receiver (indices into `actors`)
+    r: [usize; 4],
+}
+
+struct Handover {
+    w: W,
+    actors: [Pubkey; 3],
+    acts: Vec<HAct>,
+}
+
+impl Handover {
+    /// (authority, next_authority, receiver, next_receiver) as stored
+    fn stored(&self, db: &Db) -> [Pubkey; 4] {
+        let acc = db.get(&self.w.store);
+        let s: Store = db.pod(&self.w.store).expect("store");
+        let base = &s as *const Store as usize;
+        let off_auth = &s.authority as *const Pubkey as usize - base;
+        let off_map = &s.token_map as *const Pubkey as usize - base;
+        assert_eq!(off_map, off_auth + 64, "Store layout: authority, next_authority, token_map are consecutive");
+        let next = Pubkey::new_from_array(acc.data[8 + off_auth + 32..8 + off_auth + 64].try_into().unwrap());
+        [s.authority, next, s.receiver(), s.next_receiver()]
+    }
+}
+
+impl Machine for Handover {
+    type State = HSt;
+    type Action = HAct;
+    fn actions(&self) -> &[HAct] {
+        &self.acts
+    }
+    fn key(&self, s: &HSt) -> u128 {
+        use std::hash::Hasher;
+        let mut h = std::collections::hash_map::DefaultHasher::new();
+        s.db.hash_into(&mut h);
+        ((h.finish() as u128) << 64) | (s.r[0] * 1000 + s.r[1] * 100 + s.r[2] * 10 + s.r[3]) as u128
+    }
+    fn step(&self, s: &HSt, a: &HAct, out: &mut StepOut) -> HSt {
+        use gmsol_store::{accounts as ac, instruction as i};
+        W::set_time(1_000);
+        crate::svm::set_last_restart_slot(0);
+        let w = &self.w;
+        let mut n = s.clone();
+        let who = |k: usize| self.actors[k];
+        let (ixn, by, want_ok) = match *a {
+            HAct::TransferAuthority(by, to) => (ix(w.pid, ac::TransferStoreAuthority { authority: who(by), store: w.store, next_authority: who(to) }, i::TransferStoreAuthority {}), by, s.r[0] == by && s.r[1] != to),
+            HAct::AcceptAuthority(by) => (ix(w.pid, ac::AcceptStoreAuthority { next_authority: who(by), store: w.store }, i::AcceptStoreAuthority {}), by, s.r[1] == by && s.r[0] != s.r[1]),
+            HAct::TransferReceiver(by, to) => (ix(w.pid, ac::TransferReceiver { authority: who(by), store: w.store, next_receiver: who(to) }, i::TransferReceiver {}), by, s.r[2] == by && s.r[3] != to),
+            HAct::AcceptReceiver(by) => (ix(w.pid, ac::AcceptReceiver { next_receiver: who(by), store: w.store }, i::AcceptReceiver {}), by, s.r[3] == by && s.r[2] != s.r[3]),
+        };
+        // is the signer entitled at all (holds the office / the nomination)? a refusal of an entitled signer for a
+        // state reason (same nominee again, nothing to accept) is not an authorisation matter
+        let entitled = match *a {
+            HAct::TransferAuthority(by, _) => s.r[0] == by,
+            HAct::AcceptAuthority(by) => s.r[1] == by,
+            HAct::TransferReceiver(by, _) => s.r[2] == by,
+            HAct::AcceptReceiver(by) => s.r[3] == by,
+        };
+        let before = self.key(&n) >> 64;
+        let r = process(&mut n.db, &ixn, &[who(by)]);
+        if want_ok {
+            match *a {
+                HAct::TransferAuthority(_, to) => n.r[1] = to,
+                HAct::AcceptAuthority(_) => n.r[0] = n.r[1],
+                HAct::TransferReceiver(_, to) => n.r[3] = to,
+                HAct::AcceptReceiver(_) => n.r[2] = n.r[3],
+            }
+        }
+        match &r {
+            Ok(()) => {
+                out.label = "ok";
+                if !entitled {
+                    out.fail("C19/handover_unauthorised_signer_accepted", format!("{a:?} succeeded although actor {by} holds neither the office nor the nomination (reference before: authority {}, nominated {}, receiver {}, nominated receiver {})", s.r[0], s.r[1], s.r[2], s.r[3]));
+                } else if !want_ok {
+                    out.fail("C19/handover_outcome_differs", format!("{a:?} succeeded, the reference refuses it"));
+                }
+            }
+            Err(e) => {
+                out.label = if entitled { "refused_entitled" } else { "rejected" };
+                if e.is_panic() {
+                    out.fail("C19/panic", format!("{a:?}: {e:?}"));
+                }
+                if want_ok {
+                    out.fail("C19/handover_entitled_signer_rejected", format!("{a:?}: {e:?}"));
+                }
+                if (self.key(&n) >> 64) != before {
+                    out.fail("C19/rejected_instruction_changed_accounts", format!("{a:?}"));
+                }
+            }
+        }
+        let stored = self.stored(&n.db);
+        let want = [who(n.r[0]), who(n.r[1]), who(n.r[2]), who(n.r[3])];
+        if stored != want {
+            out.fail("C19/handover_state_differs", format!("{a:?}: stored (authority, nominated, receiver, nominated receiver) = {stored:?}, reference {want:?}"));
+            // keep the reference aligned with the code so that later steps judge the signer against the stored offices
+            for k in 0..4 {
+                if let Some(p) = self.actors.iter().position(|x| *x == stored[k]) {
+                    n.r[k] = p;
+                }
+            }
+        }
+        n
+    }
+}
+
+fn handover(rep: &mut Report, cli: &Cli, db: &Db, w: &W) {
+    let actors = [w.admin, w.user, w.stranger];
+    let mut acts = vec![];
+    for by in 0..3 {
+        for to in 0..3 {
+            acts.push(HAct::TransferAuthority(by, to));
+            acts.push(HAct::TransferReceiver(by, to));
+        }
+        acts.push(HAct::AcceptAuthority(by));
+        acts.push(HAct::AcceptReceiver(by));
+    }
+    let m = Handover { w: w.clone(), actors, acts };
+    let stored = m.stored(db);
+    let pos = |k: &Pubkey| actors.iter().position(|x| x == k);
+    let (Some(a0), Some(a1), Some(r0), Some(r1)) = (pos(&stored[0]), pos(&stored[1]), pos(&stored[2]), pos(&stored[3])) else {
+        rep.machinery("handover: the world's authority/receiver are not among the actors");
+        return;
+    };
+    let start = HSt { db: db.clone(), r: [a0, a1, r0, r1] };
+    if let Some(rv) = &cli.replay {
+        e2::replay_into(rep, &m, &[start], rv);
+        return;
+    }
+    let depth = if cli.tier.thorough() { 12 } else { 7 };
+    let o = e2::explore(rep, "authority / receiver hand-over histories", &m, vec![start], &e2::Config { depth, max_states: 1_000_000 }, json!({"section": "handover"}));
+    for needed in ["TransferAuthority:ok", "TransferAuthority:rejected", "AcceptAuthority:ok", "AcceptAuthority:rejected", "TransferReceiver:ok", "TransferReceiver:rejected", "AcceptReceiver:ok", "AcceptReceiver:rejected"] {
+        if o.histogram.get(needed).copied().unwrap_or(0) == 0 {
+            rep.machinery(format!("vacuous exploration: outcome {needed} never occurred"));
+        }
+    }
+}
+
 pub fn run(cli: &Cli) -> Report {
     let mut rep = Report::new(cli, "exploration");
-    rep.rule("E1 over the instruction x signer matrix through the real entrypoints: every probed privileged instruction (list in `instructions_probed`) is invoked with valid accounts by the entitled signer (must pass authorisation: success or a non-authorisation error) and by a stranger, the store admin, and the single-role holder of each of the nine other roles (must be rejected; the error code is recorded); execute_deposit / execute_withdrawal / close by non-owners are covered by C23, market config updates by C20, the timelock instructions by C36; non-trivial = a rejection of an unauthorised signer was observed");
+    rep.rule("E1 over the instruction x signer matrix through the real entrypoints: every probed privileged instruction (list in `instructions_probed`) is invoked with valid accounts by the entitled signer (must pass authorisation: success or a non-authorisation error) and by a stranger, the store admin, and the single-role holder of each of the nine other roles (must be rejected; the error code is recorded); the offices that move (store authority and fee receiver, each by nominate-then-accept) are explored as histories: E3 breadth-first over transfer_store_authority / accept_store_authority / transfer_receiver / accept_receiver by three actors to a fixpoint, where a signer is entitled iff it holds the office (to nominate) or the nomination (to accept) in the reference, and the stored offices must equal the reference after every step; execute_deposit / execute_withdrawal / close by non-owners are covered by C23, market config updates by C20, the timelock instructions by C36; non-trivial = a rejection of an unauthorised signer was observed");
     rep.assume("svm-lite commits nothing for a failed instruction (transaction atomicity, self-tested), hence 'leaves all accounts unchanged'; instructions not listed in `instructions_probed` (GLV, virtual inventory, position orders, treasury, liquidity-provider and competition administration) are outside the claim");
     if let Some(rv) = &cli.replay {
+        if rv.get("path").is_some() {
+            let (db, w) = world::build();
+            handover(&mut rep, cli, &db, &w);
+            return rep;
+        }
         rep.sample(json!({"note": "matrix case: re-run the quick tier", "case": rv}));
         rep.evaluations = 1;
         return rep;
     }
     let (mut db, w) = world::build();
+    handover(&mut rep, cli, &db, &w);
     // single-role holders
     let mut store: Store = db.pod(&w.store).expect("store");
     for role in ROLES {
